@@ -191,6 +191,9 @@ def stat_cases(rng, seeds, tier):
     for a, b in ([] if big else [(20.0, 0.1), (0.1, 0.1), (1.0, 0.1)]):
         fams.append(("beta", [a, b]))
         fams.append(("dBeta", [a, b]))
+    # restricted distributions: randC against the own cdf conditioned on the restricted domain
+    fams += [("rGamma", [2.0, 1.0, 0.5, 3.0]), ("rGamma", [0.5, 2.0, 0.1, 1.0]), ("rExpo", [2.0, 0.2, 1.5]), ("rGauss", [1.0, 2.0, 0.0, 2.5]),
+             ("rGauss", [0.0, 1.0, -0.5, 4.0]), ("rBeta", [2.0, 3.0, 0.2, 0.7]), ("rUnif", [-1.0, 3.0, 0.0, 2.0])]
     for lo, hi in [(0.0, 1.0), (-3.0, 2.0), (2.0, 2.5)] + ([(0.1, 20.0), (-20.0, -0.1)] if big else []):
         fams.append(("dUnif", [lo, hi]))
     for i, (fam, ps) in enumerate(fams):
